@@ -198,6 +198,21 @@ CLAIMED = {
              "stream, not proved; tie sampled.",
         technique="Lean 4 proof (lexer alias table, parser lemmas, round trip by structural induction) + metamorphic/differential correspondence",
         design="DESIGN.md §4 C15"),
+    "C20": dict(
+        text="Partial. Machine-checked (Lean 4) about the mirror of the explainer (top-down propagation of interval lists with a polarity "
+             "flag, per operator): on the fragment explFrag (predicates over arithmetic terms; not/and/or/implies; weak and strong "
+             "prev/next; bounded and unbounded once/historically/eventually/always) and for values with neg 0 = 0, the positions "
+             "reported for a specification violated at time 0 are a sufficient cause - every trace of the same length that coincides "
+             "with the original on all reported (variable, sample) positions violates the specification at 0 - and nothing is reported "
+             "for a satisfied specification; the explainer is defined on the whole fragment. Proof: a monotone invariant with polarity "
+             "(values on the positive side may only grow, on the negative side only shrink) over well-formed interval lists, by "
+             "structural induction. Tie: reported positions of the real explainer vs the mirror on systematic (parent rule x child "
+             "rule x polarity) and random formulas, and sufficiency tested directly on the real evaluator under adversarial "
+             "re-assignments of the non-reported positions.",
+        note="Lean kernel + standard axioms; interval_union (merging) is not mirrored, position sets are compared; iff/xor violate the "
+             "property on the real code (known finding F40, excluded by region); since/until/precedes raise in the explainer; tie sampled.",
+        technique="Lean 4 proof (monotone invariant with polarity, structural induction) + differential correspondence + adversarial oracle on the real evaluator",
+        design="DESIGN.md §4 C20"),
 }
 
 NOT_YET = {}
